@@ -704,6 +704,12 @@ func (q *lenQ) known(fn *ssa.Function, base ssa.Value, path []int, at ssa.Instru
 	if depth > 5 || fn == nil || at == nil {
 		return false
 	}
+	// a struct parameter passed by value is spilled into a local cell: the cell stands for the parameter
+	if al, ok := canon(base).(*ssa.Alloc); ok {
+		if p, spilled := isSpilledParam(al); spilled && p.Parent() == fn {
+			base = p
+		}
+	}
 	isW := func(x ssa.Value) bool {
 		k, ok := x.(*ssa.Const)
 		return ok && k.Value != nil && k.Value.ExactString() == fmt.Sprint(q.w)
